@@ -5,7 +5,7 @@ PATCH=$1; shift
 cd /repo || exit 2
 if [ -n "$(git status --porcelain)" ]; then echo "/repo is not clean"; exit 2; fi
 git apply "$PATCH" || { echo "patch does not apply"; exit 2; }
-trap "git -C /repo checkout -- . ; git -C /repo clean -fdq" EXIT INT TERM
+trap "git -C /repo checkout -- . ; git -C /repo clean -fdq; git -C /verif checkout -- evidence" EXIT INT TERM  # evidence written against a seeded change must never be committed
 export GOFLAGS=-mod=mod GOPROXY=off GOSUMDB=off GOTOOLCHAIN=local
 go build ./... || { echo "MUTANT DOES NOT BUILD"; exit 2; }
 for id in "$@"; do
